@@ -888,7 +888,10 @@ func (c *compiler) VisitUnaryExpr(e *ast.UnaryExpr) ast.VisitResult {
 			)
 			c.latestReturnType = c.ddpinttyp
 		case c.ddpbytetyp:
-			// a byte is unsigned and therefore does not need to be changed
+			// a byte is unsigned and therefore does not need to be changed,
+			// but the typechecker types the result as Zahl (unsigned to signed cast)
+			c.latestReturn = c.floatOrByteAsInt(rhs, c.ddpbytetyp)
+			c.latestReturnType = c.ddpinttyp
 		default:
 			c.err("invalid Parameter Type for BETRAG: %s", typ.Name())
 		}
